@@ -2,7 +2,7 @@
 From BBF Require Import Base.Prelude Base.Names Base.Bits Spec.Sem
      Model.Expr Model.Table Model.LibBdd Model.Bdd
      Proofs.ExprProofs Proofs.TableProofs Proofs.QuantProofs Proofs.NfProofs Proofs.DdProofs Proofs.BddProofs Proofs.BddOps
-     Proofs.ConvProofs Proofs.RenderProofs Proofs.EnumProofs.
+     Proofs.ConvProofs Proofs.RenderProofs Proofs.EnumProofs Proofs.DualityProofs.
 From Coq Require Import Sorting.Permutation.
 Theorem C06_expr_exists_sem : forall vars e v, sem v (e_exists e vars) = elim_fn orb vars (fun w => sem w e) v.
 Proof. exact e_exists_sem. Qed.
@@ -78,3 +78,14 @@ Print Assumptions C06_foreign_variable.
 Example C06_example : e_exists (And [Lit [97%N]; Not (Lit [98%N])]) [[97%N]; [98%N]] <> Const false /\
   sem (fun _ => false) (e_exists (e_xor (Lit [97%N]) (Lit [98%N])) [[97%N]; [98%N]]) = true.
 Proof. split; [discriminate|reflexivity]. Qed.
+
+(* the two quantifiers are dual *)
+Theorem C06_forall_is_dual_of_exists : forall vars f v,
+  elim_fn andb vars f v = negb (elim_fn orb vars (fun w => negb (f w)) v).
+Proof. exact forall_is_dual_of_exists. Qed.
+Print Assumptions C06_forall_is_dual_of_exists.
+
+Theorem C06_exists_is_dual_of_forall : forall vars f v,
+  elim_fn orb vars f v = negb (elim_fn andb vars (fun w => negb (f w)) v).
+Proof. exact exists_is_dual_of_forall. Qed.
+Print Assumptions C06_exists_is_dual_of_forall.
